@@ -69,28 +69,37 @@ def sortByKey (key : Nat → Id) (slots : List Nat) : List Nat :=
 
 /-! ### count_tracks_per_action / backfill -/
 
-/-- the loop `for i in 1..size` followed by the fix-up of thread 0; `keys[t]` is the action of
-    the slot of thread `t` -/
+/-- `get_action(ThreadId{i})` = action of the slot of thread `i` (null past the end) -/
+def keyAt (keys : List Id) (i : Nat) : Id := keys.getD i none
+
+/-- body of `for (size_type i = 1; i < size; ++i)` (the model folds over 0..size-1 and skips 0):
+    `if (!current_action) continue; if (current_action != get_action(i-1)) offsets[current] = i` -/
+def countLoopBody (keys : List Id) (offs : List (Option Nat)) (i : Nat) : List (Option Nat) :=
+  if i == 0 then offs else
+  match keyAt keys i with
+  | none => offs
+  | some a => if keyAt keys i != keyAt keys (i - 1) then offs.set a (some i) else offs
+
+/-- `std::fill(offsets, ThreadId{})`, the loop, then
+    `if (ActionId first = get_action(ThreadId{0})) offsets[first] = ThreadId{0}` -/
 def countRaw (keys : List Id) (numActions : Nat) : List (Option Nat) :=
-  let offs0 : List (Option Nat) := List.replicate (numActions + 1) none
-  let offs1 := (List.range keys.length).foldl (fun offs i =>
-      if i == 0 then offs else
-      match keys.getD i none with
-      | none => offs
-      | some a => if keys.getD i none != keys.getD (i - 1) none then offs.set a (some i) else offs)
-    offs0
-  match keys.getD 0 none with
+  let offs1 := (List.range keys.length).foldl (countLoopBody keys)
+    (List.replicate (numActions + 1) none)
+  match keyAt keys 0 with
   | some a => offs1.set a (some 0)
   | none => offs1
+
+/-- one iteration `if (!*thread_id) *thread_id = *(thread_id - 1)` at forward index `k` -/
+def backfillBody (o : List (Option Nat)) (k : Nat) : List (Option Nat) :=
+  match o.getD k none with
+  | none => o.set k (o.getD (k + 1) none)
+  | some _ => o
 
 /-- `backfill_action_count(offsets, size)`: last entry := size, then right-to-left fill -/
 def backfill (offs : List (Option Nat)) (size : Nat) : List (Option Nat) :=
   let n := offs.length - 1
   let offs1 := offs.set n (some size)
-  (List.range n).reverse.foldl (fun o k =>
-      match o.getD k none with
-      | none => o.set k (o.getD (k + 1) none)
-      | some _ => o) offs1
+  (List.range n).reverse.foldl backfillBody offs1
 
 def countTracksPerAction (keys : List Id) (numActions : Nat) : List (Option Nat) :=
   backfill (countRaw keys numActions) keys.length
